@@ -30,6 +30,7 @@ import Driver.StreamGate
 import Driver.DbosTimer
 import Driver.SerialCtx
 import Driver.Slots
+import Driver.WorkerCleanup
 
 def main (args : List String) : IO UInt32 := do
   let stdin ← IO.getStdin
@@ -65,4 +66,5 @@ def main (args : List String) : IO UInt32 := do
   | ["streamgate"] => Drv.loop stdin Drv.StreamGate.step {}; return 0
   | ["dbostimer"] => Drv.loop stdin Drv.DbosTimer.step []; return 0
   | ["serialctx"] => Drv.loop stdin Drv.SerialCtx.step {}; return 0
+  | ["workercleanup"] => Drv.loop stdin Drv.WorkerCleanup.step (); return 0
   | _ => IO.eprintln "usage: wfdriver <model>"; return 2
